@@ -13,7 +13,7 @@ from vpkit import common, pairs, zoo
 
 ID = "C08"
 N = {"quick": 200, "thorough": 6000}
-BUDGET = {"quick": 240.0, "thorough": 1500.0}
+BUDGET = {"quick": 240.0, "thorough": 700.0}
 RULE = ("case = (zoo input, method, options, 2 perturbation kinds out of node/mutation/site/edge "
         "metadata+schemas, allele strings, populations, provenance, monomorphic sites, individuals "
         "(phased only), migrations, time_units, top-level metadata); distinct by (topology hash, "
